@@ -11,7 +11,10 @@ CONSTANTS Msgs,      \* set of [id, line, hasPay, pay]; line, pay \in Seq(byte)
           MaxMsgs,   \* budget: messages sent in one behaviour
           Marker,    \* byte sequence announcing a payload (b"&bytes=")
           NL,        \* line terminator
-          Deviations \* {} = the statement; non-empty only to show that the monitors bite (design sensitivity)
+          Deviations \* {} = the statement; non-empty only to show that the monitors bite (design sensitivity):
+                     \*   "ModeLostAcrossReads"        the receiver forgets between reads that it waits for a payload
+                     \*   "MarkerWithoutLeftBoundary"  the receiver takes "<Marker without its first byte><digits>" at the
+                     \*                                end of a line for an announcement (no left boundary)
 VARIABLES sent,      \* ghost: messages handed to the sender, in order
           stream,    \* every byte the sender has written
           delivered, \* number of bytes of stream already handed to the receiver
@@ -31,6 +34,29 @@ MarkerAt(s, i) == i + Len(Marker) - 1 <= Len(s) /\ SubSeq(s, i, i + Len(Marker) 
 MarkerPos(s) == {i \in 1..Len(s) : MarkerAt(s, i)}
 NLPos(s) == {i \in 1..Len(s) : s[i] = NL}
 MinOf(S) == CHOOSE i \in S : \A j \in S : i <= j
+\* Lines that carry NO announcement but end like one: a proper non-empty suffix of the Marker followed by digits
+\* ("...total_bytes=20", "cmd?bytes=7", "x=1" for the marker "&bytes=").  They are ordinary messages of the sender's
+\* domain; a receiver has to treat them as such (the announcement is the whole Marker, nothing less).
+EndsLike(ln, suf) == \E d \in 1..(Len(ln) - Len(suf)) :
+                         /\ SubSeq(ln, Len(ln) - d - Len(suf) + 1, Len(ln) - d) = suf
+                         /\ IsDigits(SubSeq(ln, Len(ln) - d + 1, Len(ln)))
+Lookalike(ln) == /\ MarkerPos(ln) = {}
+                 /\ \E j \in 2..Len(Marker) : EndsLike(ln, SubSeq(Marker, j, Len(Marker)))
+\* where a receiver finds the announcement in a line: [cut |-> length of the command part, num |-> the digits]
+\* (cut = -1: none).  The statement: the first occurrence of the whole Marker.
+Core == SubSeq(Marker, 2, Len(Marker))
+LoosePos(ln) == {i \in 1..Len(ln) : /\ i + Len(Core) - 1 < Len(ln)
+                                    /\ SubSeq(ln, i, i + Len(Core) - 1) = Core
+                                    /\ IsDigits(SubSeq(ln, i + Len(Core), Len(ln)))}
+Announcement(ln) ==
+    IF "MarkerWithoutLeftBoundary" \in Deviations
+    THEN IF LoosePos(ln) = {} THEN [cut |-> -1, num |-> <<>>]
+         ELSE LET p == MinOf(LoosePos(ln))
+              IN [cut |-> IF p > 1 /\ ln[p - 1] = Marker[1] THEN p - 2 ELSE p - 1,
+                  num |-> SubSeq(ln, p + Len(Core), Len(ln))]
+    ELSE IF MarkerPos(ln) = {} THEN [cut |-> -1, num |-> <<>>]
+         ELSE LET p == MinOf(MarkerPos(ln))
+              IN [cut |-> p - 1, num |-> SubSeq(ln, p + Len(Marker), Len(ln))]
 \* the domain of the sender: an encoded command is one line and does not contain the announcement
 WellFormed(m) == /\ m.line # <<>> /\ NLPos(m.line) = {} /\ MarkerPos(m.line) = {}
                  /\ (~m.hasPay => m.pay = <<>>)
@@ -45,12 +71,11 @@ Pump(b, md, o) ==
          ELSE LET i == MinOf(NLPos(b))
                   ln == SubSeq(b, 1, i - 1)
                   rest == SubSeq(b, i + 1, Len(b))
-              IN IF MarkerPos(ln) = {}
+                  an == Announcement(ln)
+              IN IF an.cut = -1
                  THEN Pump(rest, LineMode, Append(o, [line |-> ln, hasPay |-> FALSE, pay |-> <<>>]))
-                 ELSE LET p == MinOf(MarkerPos(ln))
-                          num == SubSeq(ln, p + Len(Marker), Len(ln))
-                      IN Pump(rest, [k |-> "payload", need |-> (IF IsDigits(num) THEN ParseNat(num) ELSE 0),
-                                     line |-> SubSeq(ln, 1, p - 1)], o)
+                 ELSE Pump(rest, [k |-> "payload", need |-> (IF IsDigits(an.num) THEN ParseNat(an.num) ELSE 0),
+                                  line |-> SubSeq(ln, 1, an.cut)], o)
     ELSE IF Len(b) < md.need THEN [buf |-> b, mode |-> md, out |-> o]
          ELSE Pump(SubSeq(b, md.need + 1, Len(b)), LineMode,
                    Append(o, [line |-> md.line, hasPay |-> TRUE, pay |-> SubSeq(b, 1, md.need)]))
